@@ -813,7 +813,10 @@ func runStateCallers(c *core.Ctx) {
 			}
 			// effect kind of the method (own body and same-type callees)
 			kind := ""
-			for _, g := range an.RefClosure([]*ssa.Function{m}, func(f *ssa.Function) bool { return P.InModule(f) && (f == m || recvTypeName(f) == st) }) {
+			for _, g := range an.RefClosure([]*ssa.Function{m}, func(f *ssa.Function) bool {
+				// the state's own methods and the private helpers they delegate to (e.g. the methods of an embedded slot table)
+				return P.InModule(f) && (f == m || recvTypeName(f) == st || (an.PrivateHelper(f) && f.Signature.Recv() != nil))
+			}) {
 				an.Instrs(g, func(ins ssa.Instruction) {
 					switch x := ins.(type) {
 					case *ssa.MapUpdate:
